@@ -149,8 +149,35 @@ def short(p):
 # --------------------------------------------------------------------------
 # failing-input search
 # --------------------------------------------------------------------------
-def search_failing_input(ctx, fam, p, got_cnf):
-    """got_cnf: ('ok', (numvar, clauses)) of the CNF class.  Returns (found, what, extra, cls)."""
+def shape(clauses):
+    """invariant under any renaming of variables: number of distinct clauses per width"""
+    h = {}
+    for cl in canon(clauses):
+        h[len(cl)] = h.get(len(cl), 0) + 1
+    return h
+
+
+def search_failing_input(ctx, fam, p, got_cnf, documented=None):
+    """got_cnf: ('ok', (numvar, clauses)) of the CNF class; documented: clause list of the documented
+    model variant (coq *_axioms_exact).  Returns (found, what, extra, cls)."""
+    found = _search_semantic(ctx, fam, p, got_cnf)
+    if found[0] or got_cnf is None or got_cnf[0] != 'ok' or documented is None or p.get('malformed') or p.get('boundary'):
+        return found
+    # "exactly the documented axioms up to the naming of variables": the number of clauses of each width
+    # does not depend on the naming
+    hi, hd = shape(got_cnf[1][1]), shape(documented)
+    if hi != hd:
+        ci, cd = set(canon(got_cnf[1][1])), set(canon(documented))
+        extra = dict(found[2])
+        extra.update(clauses_per_width_built={str(k): v for k, v in sorted(hi.items())},
+                     clauses_per_width_documented={str(k): v for k, v in sorted(hd.items())},
+                     example_extra_clause=sorted(ci - cd)[:1], example_missing_clause=sorted(cd - ci)[:1])
+        return (True, 'the clauses built are not the documented axioms under any naming of the variables '
+                      '(different number of clauses of some width)', extra, 'axioms-differ')
+    return found
+
+
+def _search_semantic(ctx, fam, p, got_cnf):
     if got_cnf is None or got_cnf[0] != 'ok':
         return (False, None, {}, None)
     nv, clauses = got_cnf[1]
@@ -214,6 +241,9 @@ def run(ctx):
                 ctx.violation('correspondence', 'model error', dict(input=dict(family=fam['name'], params=short(p)), model=str(reps)[:300]),
                               False, site='model-error', cls=fam['name'])
                 continue
+            def documented(reps):
+                mv0 = model_view(reps[0], 'CNF')       # alternatives list the documented variant first
+                return mv0[2] if mv0[0] == 'ok' else None
             got_cnf = None
             for fcname, fc in classes:
                 got = outcome(lambda: impl_view(fam['build'](p, fc), fcname))
@@ -249,7 +279,7 @@ def run(ctx):
                         ctx.violation('counterexample', '%s raises %s on a valid argument' % (fam['impl'], got[1]),
                                       dict(input=inp, implementation=list(got[1:])), True, site=f['site'], cls=f['cls'])
                     else:
-                        found, what, extra, _ = search_failing_input(ctx, fam, p, got_cnf)
+                        found, what, extra, _ = search_failing_input(ctx, fam, p, got_cnf, documented(reps))
                         rp = dict(input=inp, agrees_with='model variant %s (coq/Fam_%s.v), not with the documented one' %
                                   (agreed[0]['label'], fam['name']))
                         rp.update(extra)
@@ -265,7 +295,7 @@ def run(ctx):
                                   dict(input=inp, implementation=list(got[1:]), model=str(mv)[:300]), True,
                                   site=fam['impl'], cls='raises-' + got[1])
                     continue
-                found, what, extra, cls = search_failing_input(ctx, fam, p, got_cnf)
+                found, what, extra, cls = search_failing_input(ctx, fam, p, got_cnf, documented(reps))
                 rp = dict(input=inp, difference=detail,
                           implementation=str(got)[:600], model=str(mv)[:600],
                           correspondence='coq/Fam_*.v (%s) <-> cnfgen %s; theorems of coq/Prop_C03.v no longer cover the code' % (fam['name'], fam['impl']))
